@@ -78,6 +78,7 @@ type tConn struct {
 	dialAt     time.Duration
 	maxInflight int
 	badLenSent bool
+	maxPendingAtArrival int // most unanswered (by the server) queries present when a further query arrived
 	garbled    int    // frames received that are not DNS queries
 	wstream    []byte // client->server bytes not yet forming a complete frame
 	actLog     string // server actions taken on this connection, in order
@@ -234,6 +235,9 @@ func (s *tsys) serve(cn *tConn) {
 					continue
 				}
 				w := &wireQ{wire: m, call: s.callOf(m), at: vs.Elapsed()}
+				if len(cn.pending) > cn.maxPendingAtArrival {
+					cn.maxPendingAtArrival = len(cn.pending) // queries the server had not answered yet when this one arrived
+				}
 				cn.got = append(cn.got, w)
 				cn.pending = append(cn.pending, w)
 			}
@@ -328,7 +332,14 @@ func (s *tsys) serve(cn *tConn) {
 			cn.answers = append(cn.answers, rec)
 		case "short":
 			cn.shortLeft--
-			if s.tcp {
+			if s.tcp && vs.Choose(2) == 1 {
+				// a runt frame (announced length 12) whose "body" looks like a frame of its own
+				// addressed to an outstanding query: a reader that skips the runt header
+				// without its body re-synchronises in the middle of the stream
+				id := cn.pending[0].wire[:2]
+				runt := append([]byte{0, 12, 0, 13, id[0], id[1]}, []byte("AAAAAAAAAAA")...)
+				cn.a.Deliver(runt)
+			} else if s.tcp {
 				cn.a.Deliver([]byte{0, 5, 1, 2, 3, 4, 5})
 			} else {
 				cn.a.Deliver([]byte{1, 2, 3, 4, 5})
